@@ -4,6 +4,7 @@
      <k> P new|alloc|delete i|free
      <k> D new perf|resize rows cols freqs|free
      <k> A type frows fcols brows bcols srows scols
+     <k> Z new|resize rows cols freqs|setfz0 findex port|setfz0v findex src [i]|setz0 port|setz0v src [i]|setallz0|free   (coq/Mem/DataZ0.v)
      <k> H new nparams|get p|find p|free                       (vnacal_new_t parameter hash, coq/Mem/HashTab.v)
      <k> M new|set rank hv name|get rank hv name|del rank hv name|keys|free     (vnaproperty map)
    H and M ops append  | <allocation> <count> | <bucket>:<key>,<key>...  and M ops  | <order list>  (keys: | <keys>)
@@ -32,6 +33,7 @@ let () =
   let lst = ref None and ls = ref (start None) in
   let pc = ref None and ps = ref (start None) in
   let dd = ref None and ds = ref (start None) in
+  let zz = ref None and zs = ref (start None) in
   let hh = ref None and hs = ref (start None) in
   let mm = ref None and ms = ref (start None) in
   (try
@@ -104,6 +106,37 @@ let () =
            let cells = if r < 0 || c < 0 then (-1) else r * c in
            (match resize Fixed d (z_of_int ports) (z_of_int cells) (z_of_int f) s with
             | Ok ((d', out), s') -> dd := Some d'; ds := s'; Printf.printf "%s %d\n" (out_str out) (length s'.live)
+            | Fault f -> Printf.printf "FAULT %s\n" (fault_name f)))
+      | k :: "Z" :: op :: args ->
+        let k = int_of_string k in
+        let a i = int_of_string (List.nth args i) in
+        let s = with_fault k !zs in
+        (match op, !zz with
+         | "new", _ ->
+           (match dnew false s with
+            | Ok (Some d, s') -> zz := Some { od = d; ofr = O; opt = O }; zs := s'; Printf.printf "Done E0 %d\n" (length s'.live)
+            | Ok (None, s') -> zs := s'; Printf.printf "Err ENOMEM %d\n" (length s'.live)
+            | Fault f -> Printf.printf "FAULT %s\n" (fault_name f))
+         | "free", Some o ->
+           (match dfree o.od s with
+            | Ok (_, s') -> zz := None; zs := s'; Printf.printf "Done E0 %d\n" (length s'.live)
+            | Fault f -> Printf.printf "FAULT %s\n" (fault_name f))
+         | _, None -> print_string "SKIP E0 0\n"
+         | _, Some o ->
+           let src j = (match a j with 0 -> SExt | 1 -> SOwnZ0 | _ -> SOwnRow (z_of_int (a (j + 1)))) in
+           let zo = (match op with
+               | "resize" ->
+                 let r = a 0 and c = a 1 and f = a 2 in
+                 let ports = if r < 0 || c < 0 then (-1) else max r c in
+                 let cells = if r < 0 || c < 0 then (-1) else r * c in
+                 ZResize (z_of_int ports, z_of_int cells, z_of_int f)
+               | "setfz0" -> ZSetFz0 (z_of_int (a 0), z_of_int (a 1))
+               | "setfz0v" -> ZSetFz0Vec (z_of_int (a 0), src 1)
+               | "setz0" -> ZSetZ0 (z_of_int (a 0))
+               | "setz0v" -> ZSetZ0Vec (src 0)
+               | _ -> ZSetAllZ0) in
+           (match zstep ZFixed o zo s with
+            | Ok ((o', out), s') -> zz := Some o'; zs := s'; Printf.printf "%s %d\n" (out_str out) (length s'.live)
             | Fault f -> Printf.printf "FAULT %s\n" (fault_name f)))
       | k :: "H" :: op :: args ->
         let k = int_of_string k in
